@@ -472,6 +472,8 @@ class Normalizer:
             return None
         selfname = fn.args.args[0].arg if (fn.args.args and bind_self is not None) else None
         locals_ = _stored_names(ast.Module(body=body, type_ignores=[])) | {a.arg for a in fn.args.args + fn.args.kwonlyargs + fn.args.posonlyargs}
+        if fn.args.vararg:
+            locals_.add(fn.args.vararg.arg)
         mapping = {n: f"{n}__{k}" for n in locals_}
         mapping[ret] = ret
         if selfname and bind_self is True:
@@ -520,14 +522,20 @@ class Normalizer:
 
     def _bind(self, call: ast.Call, fn, bind_self, k) -> List[Tuple[str, ast.expr]]:
         a = fn.args
-        if a.vararg or a.kwarg or a.posonlyargs:
-            raise _CannotInline("*args/**kwargs in the helper's signature")
+        if a.kwarg or a.posonlyargs:
+            raise _CannotInline("**kwargs / positional-only parameters in the helper's signature")
         if any(isinstance(x, ast.Starred) for x in call.args) or any(kw.arg is None for kw in call.keywords):
             raise _CannotInline("star arguments at the call site")
         params = [p.arg for p in a.args]
         defaults = A.param_defaults(fn)
         out: List[Tuple[str, ast.expr]] = []
         pos = list(call.args)
+        extra = None
+        if a.vararg:
+            # *rest collects the surplus positional arguments into a tuple
+            n_fixed = len(params) - (1 if bind_self is not None else 0)
+            extra = ast.Tuple(elts=pos[n_fixed:], ctx=ast.Load())
+            pos = pos[:n_fixed]
         if bind_self is not None:       # method: first parameter is the receiver
             if not params:
                 raise _CannotInline("method without self")
@@ -552,6 +560,8 @@ class Normalizer:
                 out.append((p, copy.deepcopy(defaults[p])))
             else:
                 raise _CannotInline(f"missing argument {p}")
+        if extra is not None:
+            out.append((a.vararg.arg, extra))
         return out
 
     # ------------------------------------------------------------------ lowering
